@@ -50,12 +50,23 @@ int g_wait_no = 0, g_stop_at_wait = -1;
 bool g_stop_requested = false;
 int g_runs_at_stop = -1;
 bool g_evaluating = false;
+bool g_stop_in_start = false;
 
 DateTime wall_now_us() { return DateTime{std::chrono::duration_cast<TimeDelta>(std::chrono::nanoseconds{verif_clock_ns()})}; }
 
 struct Sched {
     static constexpr auto name = "sched";
     static constexpr bool schedule_on_start = true;
+    // a node may ask for the stop from its own start hook: the request is latched before the loop's first cycle
+    static void start() {
+        if (g_stop_at_wait == -2 && !g_stop_requested && g_exec != nullptr) {
+            g_exec->view().request_stop();
+            g_stop_requested = true;
+            g_stop_in_start = true;
+            g_runs_at_stop = 0;
+            verif_reach("stop_requested_during_start");
+        }
+    }
     static void eval(NodeScheduler s, State<Int> n, Scalar<"id", Int> id, DateTime now, Out<TS<Int>> out) {
         int k = (int)id.value();
         Int j = n.get();
@@ -97,7 +108,7 @@ extern "C" int harness_main() {
         for (int j = 0; j < JEVALS; j++) g_delta[k][j] = verif_range("delta", 0, DMAX);
     // the run starts at the wall clock or up to 3 us in the past (a lagging start), never in the future
     std::int64_t lag = verif_range("lag", 0, 3);
-    g_stop_at_wait = verif_choice("stop_at_wait", MAX_WAITS + 1) - 1;  // -1: never
+    g_stop_at_wait = verif_choice("stop_at_wait", MAX_WAITS + 2) - 2;  // -1: never, -2: from a start hook
     // clock reads do not advance time by themselves; time passes while waiting (deadline + enumerated lateness)
     // and while evaluating (a node 'takes' an enumerated number of microseconds)
     verif_clock_config(0, 0, LATE_MAX_US);
@@ -142,7 +153,8 @@ extern "C" int harness_main() {
         verif_reach("ran_to_end_time");
     } else {
         // a stop request ends the run after the current cycle: the loop was waiting, so no further cycle starts
-        verif_assert(g_nruns == g_runs_at_stop, "C17.no_cycle_after_stop_request");
+        if (g_stop_in_start) verif_assert(cycles <= 1, "C17.stop_requested_during_start_not_lost");  // at most the start cycle
+        else verif_assert(g_nruns == g_runs_at_stop, "C17.no_cycle_after_stop_request");
     }
     verif_assert(ok_increasing, "C17.time_strictly_increases_within_window");
     verif_assert(ok_asked, "C17.evaluated_at_exactly_requested_time");
